@@ -425,7 +425,12 @@ class Gen(object):
             ncb = r.choice([1, 1, 2]) if r.random() < self.p.p_cb else 0
         if ncb:
             op['ncb'] = ncb
-        if r.random() < 0.1 and val is not None and 'strings' in self.p.groups:
+        if r.random() < 0.06 and self.w.template is None:
+            # the same format given through n_int and one other size
+            s, nw, nf = fmt
+            op['n_int'] = nw - nf - (1 if s else 0)
+            op['fmt'] = [s] + ([nw, None] if r.random() < 0.5 else [None, nf])
+        elif r.random() < 0.1 and val is not None and 'strings' in self.p.groups:
             s, nw, nf = fmt
             op['dtype'] = 'fxp-%s%d/%d' % ('s' if s else 'u', nw, nf)
         elif self.p.prop == 'C02' and r.random() < 0.08 and fmt[1] <= 24:
@@ -679,7 +684,15 @@ class Gen(object):
 
         def compat(o):
             sh = tuple(np.asarray(o.val).shape)
-            return self.is_real(o) and (sh == ash or not sh or not ash)
+            if not self.is_real(o):
+                return False
+            if sh == ash or not sh or not ash:
+                return True
+            try:
+                np.broadcast_shapes(sh, ash)       # (3,) with (2, 3), (1, 3) with (3, 3), (1,) with anything
+                return True
+            except ValueError:
+                return False
         if r.random() < 0.65:
             kb, ib = self.pick(compat, prefer=self.small)
             if kb is None:
